@@ -83,6 +83,9 @@ package libaudit
 //@ requires Base(l) && !held(l.Mutex)
 //@ requires len(l.seqs) <= 274877906944 -- domain: fewer than 2^38 buffered events, so that the int counter cannot wrap
 //@ modifies l.seqs, l.lastSeq, l.hasLast, l.Mutex, mapOf(l.events), elemsOf(*event), alloc, clock
+// the batch handed to the caller is detached: its array was allocated by this call
+// (or it is empty), so no later operation on the list can write into it
+//@ ensures[C01,C11] base(result0) == 0 || fresh(result0)
 //@ ensures[C01] Base(l)
 //@ ensures[C01] len(result0) <= old(len(l.seqs)) && len(l.seqs) == old(len(l.seqs)) - len(result0)
 //@ ensures[C01] base(l.seqs) == old(base(l.seqs)) && lo(l.seqs) == old(lo(l.seqs)) + len(result0)
@@ -107,6 +110,7 @@ package libaudit
 //@ loop 0 invariant[C03] lost == fLost(lo(l.seqs), old(l.seqs), old(lo(l.seqs)), old(l.lastSeq), old(l.hasLast)) && lost >= 0 && lost <= len(evicted) * 16777215
 //@ loop 0 invariant[C03] l.lastSeq == fHW(lo(l.seqs), old(l.seqs), old(lo(l.seqs)), old(l.lastSeq), old(l.hasLast))
 //@ loop 0 invariant[C03] l.hasLast == (old(l.hasLast) || len(evicted) > 0)
+//@ loop 0 invariant[C01,C11] base(evicted) == 0 || fresh(evicted)
 //@ loop 0 invariant[C11] held(l.Mutex)
 //@ loop 0 decreases len(l.seqs)
 
@@ -118,6 +122,9 @@ package libaudit
 //@ requires Base(l) && !held(l.Mutex)
 //@ requires len(l.seqs) <= 274877906944
 //@ modifies l.seqs, l.lastSeq, l.hasLast, l.Mutex, mapOf(l.events), elemsOf(*event), alloc
+// the batch handed to the caller is detached: its array was allocated by this call
+// (or it is empty), so no later operation on the list can write into it
+//@ ensures[C01,C11] base(result0) == 0 || fresh(result0)
 //@ ensures[C01] Base(l) && len(l.seqs) == 0 && len(result0) == old(len(l.seqs))
 //@ ensures[C01] forall i int :: 0 <= i && i < len(result0) ==> result0[i] == old(l.events[l.seqs[i]])
 //@ ensures[C01] forall k int :: lo(result0) <= k && k < hi(result0) ==> at(result0, k) != nil
@@ -133,6 +140,7 @@ package libaudit
 //@ loop 0 invariant[C03] lost == fLost(lo(l.seqs), old(l.seqs), old(lo(l.seqs)), old(l.lastSeq), old(l.hasLast)) && lost >= 0 && lost <= len(evicted) * 16777215
 //@ loop 0 invariant[C03] l.lastSeq == fHW(lo(l.seqs), old(l.seqs), old(lo(l.seqs)), old(l.lastSeq), old(l.hasLast))
 //@ loop 0 invariant[C03] l.hasLast == (old(l.hasLast) || len(evicted) > 0)
+//@ loop 0 invariant[C01,C11] base(evicted) == 0 || fresh(evicted)
 //@ loop 0 invariant[C11] held(l.Mutex)
 //@ loop 0 decreases len(l.seqs)
 
